@@ -156,26 +156,30 @@ fn corpus() -> Vec<ModuleDef> {
                 Remove("x"), Remove("u"), Close(S::Simple),
             ],
         },
-        // odd sizes, zero-size fields, over-aligned type
+        // odd sizes, zero-size fields (may-be-uninitialised ones too, with the clone fragment), an
+        // over-aligned type present in the first two variants only (the definition's alignment is 16,
+        // the last variant's own data need 8)
         ModuleDef {
             name: "m_shapes",
-            clone: false,
+            clone: true,
             serde: false,
             tier: "quick",
             ops: vec![
                 Add("a3", A3, true), Add("z", Unit, true), Add("s12", S12, true), Add("w", A16, true), Close(S::Simple),
                 Remove("a3"), Add("s24", S24, true), Add("zz", Zst, true), Add("q", U8, false), Close(S::Simple),
+                Remove("w"), Add("r", U16, true), Close(S::Simple),
             ],
         },
-        // empty first variant, then only may-be-uninitialised fields
+        // empty first variant, then only may-be-uninitialised fields, then an empty last variant
         ModuleDef {
             name: "m_empty_then_uninit",
-            clone: false,
-            serde: false,
+            clone: true,
+            serde: true,
             tier: "quick",
             ops: vec![
                 Close(S::Simple),
                 Add("p", U64, true), Add("q", U16, true), Close(S::Simple),
+                Remove("p"), Remove("q"), Close(S::Simple),
             ],
         },
         // a wide removed field whose bytes are taken over by two narrower added fields, twice;
